@@ -309,6 +309,8 @@ Not decided: the folding of FROM set expressions (unions/intersections) and seri
 
     // ---- set operators ----
     ops(m, ctx);
+    // ---- references inside FROM are visited by the linker (shared with C09.sym) ----
+    crate::rules::c09::constraint_pairs(m, ctx, "C15.link");
 
     // ---- rendering ----
     if let Some(f) = anchor_fn(m, ctx, "C15.render", Some("Rasn"), "format_alphabet_annotations", None) {
